@@ -231,5 +231,25 @@ impl SecondOrderCone<F> {
 //@end
 }
 
+//@enum file=src/solver/core/cones/mod.rs name=PrimalOrDualCone rules=R12 derive="PartialEq, Eq, Clone, Copy, Structural"
+impl SecondOrderCone<F> {
+//@fn file=src/solver/core/cones/socone.rs in="Cone<T> for SecondOrderCone<T>" name=margins rules=R1,R2 ret=r params=z,pd
+//@contract
+    requires old(z)@.len() >= 1,
+    ensures
+        // C15 / C07: the margin of a point of the second-order cone is z0 - |(z1, .., z_{n-1})| (all of the tail)
+        final(z)@ == old(z)@,
+        r.0 == f_sub(old(z)@[0], vm_norm(old(z)@.subrange(1, old(z)@.len() as int))),
+        r.1 == f_max(f_zero(), r.0),
+//@end
+//@fn file=src/solver/core/cones/socone.rs in="Cone<T> for SecondOrderCone<T>" name=scaled_unit_shift rules=R1,R2 params=z,alpha,pd
+//@contract
+    requires old(z)@.len() >= 1,
+    ensures
+        // the shift moves along the cone's identity e = (1, 0, .., 0) only
+        final(z)@ == old(z)@.update(0, f_add(old(z)@[0], alpha)),
+//@end
+}
+
 } // verus!
 fn main() {}
